@@ -49,11 +49,16 @@ ASSUMPTIONS = list(__import__("props.c01", fromlist=["x"]).ASSUMPTIONS) + [
 SB_PROPS = {"C15", "C01", "C02", "C06", "C07"}
 
 
-def gen_case(rng, min_remaps=2, micro=0.0, defaults=False):
+def gen_case(rng, min_remaps=2, micro=0.0, defaults=False, big=False):
     nd = rng.choice([1, 1, 2, 2, 3])
     dims = [rng.choice([1, 2, 3, 4, 5]) for _ in range(nd)]
     freq = rng.choice([2, 3, 4, 7])
     cap = rng.choice([1, max(1, freq - 1), freq, freq + 3, 50])
+    if big:             # thousands of cells, a handful of elites, duplicate measures with tied objectives: the sparse
+        nd = 2          # regime of the batch transform (few rows, large cell indices) during the re-insertion of a remap
+        dims = [rng.choice([40, 64, 100]), rng.choice([40, 64, 100])]
+        freq = rng.choice([4, 7, 12])
+        cap = rng.choice([freq, 12, 50])
     if defaults:        # the documented defaults remap_frequency=100, buffer_capacity=1000 (omitted by `make`)
         freq, cap = 100, 1000
     dt = rng.choice(["f64", "f64", "f32"])
@@ -67,6 +72,8 @@ def gen_case(rng, min_remaps=2, micro=0.0, defaults=False):
             "cap": cap, "layout": rng.choice(["", "s", "v", "o", "sv", "om", "b", "vb", "u", "uw", "su", "su", "t", "ot"]), "sol_dim": rng.choice([1, 2]),
             "off": q(rng.choice([F(0), F(-8), F(3, 2)]))}
     style = rng.choice(["uniform", "dups", "drift", "far"] + (["micro"] if dt == "f64" else []))
+    if big:
+        style = "dups"
     if force_micro:
         style = "micro"
     micro_k = rng.choice([1, 1, 2])      # one cluster: every boundary of every remap moves by a few 2^-21 only
@@ -92,6 +99,8 @@ def gen_case(rng, min_remaps=2, micro=0.0, defaults=False):
 
     def row():
         tok[0] += 1
+        if big:
+            return [tok[0], q(F(rng.randint(-2, 2))), meas(tok[0])]
         return [tok[0], q(F(rng.randint(-16, 16), rng.choice([1, 2, 4]))), meas(tok[0])]
 
     ops = []
@@ -600,6 +609,11 @@ def run(ctx):
     # the documented defaults (remap every 100 insertions, buffer of 1000): histories of 200-400 insertions
     ctx.explore("default-frequency", (lambda rng: gen_case(rng, defaults=True)), lambda c: run_case(c, {"C15"}),
                 ctx.n(2, 60), nontrivial=nontrivial, time_budget=15 if ctx.quick else 120)
+
+
+    # thousands of cells holding a handful of elites with tied objectives (sparse regime of the batch transform)
+    ctx.explore("sparse-big", (lambda rng: gen_case(rng, big=True)), lambda c: run_case(c, {"C15"}),
+                ctx.n(25, 2000), nontrivial=nontrivial, time_budget=15 if ctx.quick else 150)
 
 
 def replay(ctx, case):
